@@ -11,7 +11,9 @@ N = {"quick": 60000, "thorough": 1200000}
 RULE = ("seeded instance x filter x op list; after every accepted dispatch start = max(job ready, machine free) "
         "by the reference model and all tracking values equal those derived from the schedule; at every reset "
         "and at the end the recorded (operation, machine) history is re-dispatched on a fresh dispatcher, on the "
-        "same dispatcher after reset(), and through create_gantt_chart_frames' replay path; non-trivial: >= 3 "
+        "same dispatcher after reset() (history list held by reference, or frozen by unsubscribing the observer first), in job-sequence form "
+        "twice from one record, and through create_gantt_chart_frames' replay path; an invalid request that is accepted is judged "
+        "against the forced-start rule on the real schedule; non-trivial: >= 3 "
         "accepted dispatches; distinct = distinct (config, op list) hashes")
 REAL = ["Dispatcher", "Schedule", "HistoryObserver", "create_gantt_chart_frames (replay branch)"]
 STUB = ["plot_function (no-op figure)", "_save_frame (captures the schedule instead of writing a PNG)"]
